@@ -1046,7 +1046,8 @@ Lemma bodies_flat_one attrs l x :
   In x l -> pi_of attrs x = [PBody] -> (1 <= bodies (flat_map (pi_of attrs) l))%nat.
 Proof.
   intros Hin E. apply in_split in Hin. destruct Hin as [l1 [l2 ->]].
-  rewrite flat_map_app. simpl. rewrite E. rewrite bodies_app. simpl. unfold bodies at 2. simpl. lia.
+  rewrite flat_map_app. cbn [flat_map]. rewrite E. rewrite !bodies_app.
+  change (bodies [PBody]) with 1. lia.
 Qed.
 
 Lemma bodies_flat_two attrs l x y :
@@ -1054,11 +1055,754 @@ Lemma bodies_flat_two attrs l x y :
   (2 <= bodies (flat_map (pi_of attrs) l))%nat.
 Proof.
   intros Hx Hy Hne Ex Ey. apply in_split in Hx. destruct Hx as [l1 [l2 ->]].
-  rewrite flat_map_app. simpl. rewrite Ex. rewrite bodies_app. simpl.
   assert (Hy' : In y l1 \/ In y l2).
   { apply in_app_or in Hy. destruct Hy as [Hy|[Hy|Hy]]; auto. congruence. }
-  rewrite bodies_app. unfold bodies at 2. simpl.
+  rewrite flat_map_app. cbn [flat_map]. rewrite Ex. rewrite !bodies_app.
+  change (bodies [PBody]) with 1.
   destruct Hy' as [Hy'|Hy'].
   - pose proof (bodies_flat_one attrs l1 y Hy' Ey). lia.
   - pose proof (bodies_flat_one attrs l2 y Hy' Ey). lia.
 Qed.
+
+(* ---------------------------------------------------------------- acceptance, scope *)
+
+Lemma accepted_iff r :
+  accepted r = true <->
+  is_endpoint r = true
+  /\ exists dp dr, params_diags r = Some dp /\ rets_diags r = Some dr
+     /\ no_error (common_diags r) = true /\ no_error dp = true /\ no_error dr = true
+     /\ no_error (link_diags r) = true /\ reduce_ok r = true.
+Proof.
+  unfold accepted, validate. destruct (is_endpoint r); simpl.
+  - destruct (params_diags r) as [dp|].
+    + destruct (rets_diags r) as [dr|].
+      * rewrite !no_error_app, !andb_true_iff. split.
+        -- intros [(H1 & H2 & H3 & H4) H5]. split; [reflexivity|]. exists dp, dr. tauto.
+        -- intros [_ (dp' & dr' & E1 & E2 & H)]. inversion E1; inversion E2; subst. tauto.
+      * split; [discriminate|]. intros [_ (dp' & dr' & _ & E & _)]. discriminate.
+    + split; [discriminate|]. intros [_ (dp' & dr' & E & _)]. discriminate.
+  - split; [discriminate | intros [H _]; discriminate].
+Qed.
+
+Record scope_facts (r : route) : Prop := {
+  sc_known : all_known (r_attrs r);
+  sc_alias : forall a, In a (r_attrs r) -> la_alias a <> ANonStr;
+  sc_value : forall a, In a (r_attrs r) -> la_kind a = KRoute \/ la_kind a = KSecurity -> la_value a <> [];
+  sc_nodup : NoDup (fnames r);
+  sc_names : forall p, In p (r_params r) -> is_blank (fp_name p) = false;
+  sc_noctx : forall a p, In a (param_attrs r) -> find_param (la_value a) r = Some p -> is_ctx p = false }.
+
+Lemma in_scope_facts r : in_scope r = true -> scope_facts r.
+Proof.
+  unfold in_scope. rewrite !andb_true_iff. intros [[[[[H1 H2] H3] H4] H5] H6].
+  rewrite forallb_forall in H1, H2, H3, H5, H6. constructor.
+  - intros a Ha E. specialize (H1 a Ha). rewrite E in H1. discriminate.
+  - intros a Ha E. specialize (H2 a Ha). rewrite E in H2. discriminate.
+  - intros a Ha Hk E. specialize (H3 a Ha). rewrite E in H3. destruct Hk as [K|K]; rewrite K in H3; discriminate.
+  - apply nodupb_spec. assumption.
+  - intros p Hp. specialize (H5 p Hp). apply negb_true_iff in H5. assumption.
+  - intros a p Ha E. specialize (H6 a Ha). rewrite E in H6. apply negb_true_iff in H6. assumption.
+Qed.
+
+Lemma existsb_false {A} (f : A -> bool) l : existsb f l = false <-> forall x, In x l -> f x = false.
+Proof.
+  split.
+  - intros H x Hx. destruct (f x) eqn:E; [|reflexivity].
+    assert (existsb f l = true) by (apply existsb_exists; eauto). congruence.
+  - intros H. destruct (existsb f l) eqn:E; [|reflexivity].
+    apply existsb_exists in E. destruct E as [x [Hx Fx]]. rewrite (H x Hx) in Fx. discriminate.
+Qed.
+
+Lemma real_alias_of_spec a x : In x (real_alias_of a) <-> real_alias a = true /\ la_alias a = AStr x.
+Proof.
+  unfold real_alias_of, real_alias. destruct (la_alias a) as [|[|c y]|]; simpl; split; try tauto; try (intros [H _]; discriminate).
+  - intros [<-|[]]. auto.
+  - intros [_ E]. inversion E. auto.
+Qed.
+
+Lemma binding_real a : real_alias a = true -> la_alias a = AStr (binding a).
+Proof. unfold real_alias, binding. destruct (la_alias a) as [|[|c y]|]; try discriminate. reflexivity. Qed.
+
+Lemma binding_not_real a : real_alias a = false -> binding a = la_value a.
+Proof. unfold real_alias, binding. destruct (la_alias a) as [|[|c y]|]; try discriminate; reflexivity. Qed.
+
+(* the bindings of the @Path annotations are pairwise distinct *)
+Lemma bindings_nodup (pa : list lattr) :
+  NoDup (map la_value pa) -> NoDup (flat_map real_alias_of pa) ->
+  (forall a b, In a pa -> In b pa -> real_alias a = true -> real_alias b = false -> la_value b <> binding a) ->
+  NoDup (map binding pa).
+Proof.
+  induction pa as [|a t IH]; simpl; intros Hv Hr Hs; [constructor|].
+  inversion Hv as [|? ? Hva Hvt]; subst. apply NoDup_app_iff in Hr. destruct Hr as (Hr1 & Hr2 & Hr3).
+  constructor.
+  - intros Hin. apply in_map_iff in Hin. destruct Hin as [b [Eb Hb]].
+    destruct (real_alias a) eqn:Ra, (real_alias b) eqn:Rb.
+    + apply (Hr3 (binding a)).
+      * apply real_alias_of_spec. split; [assumption | apply binding_real; assumption].
+      * apply in_flat_map. exists b. split; [assumption|]. apply real_alias_of_spec. split; [assumption|].
+        rewrite <- Eb. apply binding_real; assumption.
+    + apply (Hs a b); auto. rewrite <- Eb. symmetry. apply binding_not_real; assumption.
+    + apply (Hs b a); auto. rewrite Eb. symmetry. apply binding_not_real; assumption.
+    + apply Hva. rewrite (binding_not_real _ Ra) in Eb. rewrite (binding_not_real _ Rb) in Eb.
+      rewrite <- Eb. apply in_map; assumption.
+  - apply IH; auto.
+Qed.
+
+(* ---------------------------------------------------------------- soundness (partial) *)
+
+Lemma nonbody_case j k p pi :
+  passed_of k = Some pi -> k <> KBody -> validate_nonbody_param j p pi = [] -> loose_param k p = false ->
+  nonbody_type_ok k p = true.
+Proof.
+  destruct p as [n b sh]. unfold validate_nonbody_param, loose_param, nonbody_type_ok, param_meta. simpl.
+  intros Hp Hk Hv Hl.
+  destruct k; simpl in Hp; inversion Hp; subst pi; try congruence;
+    destruct b, sh; simpl in *; try reflexivity; try discriminate.
+Qed.
+
+Lemma sf3_In r v :
+  In v (snd (pass3_go (fnames r) (snd (pass2_go (fnames r) (link_url r) [] [] [] (path_attrs r))) (nonpath_attrs r))) <->
+  (In v (pvalues (path_attrs r)) /\ In v (fnames r))
+  \/ (In v (pvalues (nonpath_attrs r)) /\ v <> [] /\ In v (fnames r)).
+Proof. rewrite pass3_snd, pass2_snd. simpl. tauto. Qed.
+
+Lemma in_two_split {A} (l : list A) x y :
+  In x l -> In y l -> x <> y ->
+  (exists l1 l2 l3, l = l1 ++ x :: l2 ++ y :: l3) \/ (exists l1 l2 l3, l = l1 ++ y :: l2 ++ x :: l3).
+Proof.
+  intros Hx Hy Hne. apply in_split in Hx. destruct Hx as [l1 [l2 ->]].
+  apply in_app_or in Hy. destruct Hy as [Hy|[Hy|Hy]]; [|congruence|].
+  - apply in_split in Hy. destruct Hy as [m1 [m2 ->]]. right. exists m1, m2, l2. rewrite <- app_assoc. reflexivity.
+  - apply in_split in Hy. destruct Hy as [m1 [m2 ->]]. left. exists l1, m1, m2. reflexivity.
+Qed.
+
+Theorem sound_partial r :
+  in_scope r = true -> sound_excl r = false -> accepted r = true -> well_linked r = true.
+Proof.
+  intros Hscope Hexcl Hacc.
+  pose proof (in_scope_facts r Hscope) as SC.
+  apply accepted_iff in Hacc. destruct Hacc as [Hend (dp & dr & Epar & Eret & Hcom & Hdp & Hdr & Hlink & Hred)].
+  (* the excluded classes *)
+  unfold sound_excl in Hexcl. repeat (apply orb_false_iff in Hexcl; destruct Hexcl as [Hexcl ?X]).
+  rename Hexcl into Xprefix. rename X3 into Xbare. rename X2 into Xtwo. rename X1 into Xshadow.
+  rename X0 into Xloose. rename X into Xblank.
+  (* CommonValidator *)
+  apply (common_diags_ok r (sc_known r SC)) in Hcom. rewrite attrs_ok_split in Hcom. simpl in Hcom.
+  assert (Hfirst : forall a, In a (r_attrs r) -> is_param_kind (la_kind a) = true ->
+                     first_by_value (la_value a) (r_attrs r) = Some a).
+  { intros a Ha Hk. apply in_split in Ha. destruct Ha as [l1 [l2 E]]. rewrite E.
+    apply first_by_value_app. apply (Hcom l1 a l2 E). assumption. }
+  (* link validator *)
+  apply link_diags_ok in Hlink. destruct Hlink as (P1 & P2 & P3 & P4).
+  apply pass2_nil in P2; [|intros x []]. destruct P2 as (P2v & P2n & _ & _ & P2a & P2u).
+  rewrite pass3_nil in P3. rewrite pass4_nil in P4.
+  rewrite path_pvalues in P2v, P2n. rewrite real_aliases_map, path_attrs_snd in P2a, P2u.
+  (* one @Route *)
+  assert (Hroute : exists ra, attrs_of KRoute r = [ra]).
+  { unfold sx_two_routes in Xtwo. apply Nat.ltb_ge in Xtwo.
+    unfold is_endpoint in Hend. apply andb_true_iff in Hend. destruct Hend as [_ Hend].
+    unfold first_value in Hend. rewrite find_filter in Hend. fold (attrs_of KRoute r) in Hend.
+    destruct (attrs_of KRoute r) as [|ra [|rb t]]; simpl in *; try discriminate; [exists ra; reflexivity | lia]. }
+  destruct Hroute as [ra Hra]. destruct (single_route r ra Hra) as [Eurl Eroute].
+  assert (Enames : template_names (full_template r) = link_url r).
+  { rewrite full_template_names by exact Xprefix. rewrite Eurl, Eroute. reflexivity. }
+  assert (P1' : (forall u, In u (link_url r) -> In u (map path_key (attrs_of KPath r))) /\ NoDup (link_url r)).
+  { unfold pass1 in P1.
+    assert (Ead : flat_map alias_diag (path_attrs r) = []).
+    { destruct (flat_map alias_diag (path_attrs r)) as [|d l] eqn:E; [reflexivity|]. exfalso.
+      assert (Hd : In d (d :: l)) by (left; reflexivity). rewrite <- E in Hd. apply in_flat_map in Hd.
+      destruct Hd as [[i a] [Hia Hd]]. unfold alias_diag in Hd. simpl in Hd.
+      destruct (la_alias a) eqn:Ea; simpl in Hd; try contradiction.
+      apply (sc_alias r SC a); [|assumption].
+      unfold path_attrs in Hia. apply filter_In in Hia. destruct Hia as [Hia _]. eapply index_from_In, Hia. }
+    rewrite Ead in P1. apply url_go_nil in P1. destruct P1 as (Q1 & Q2 & _). split; [|assumption].
+    intros u Hu. specialize (Q1 u Hu). rewrite <- path_attrs_snd, map_map. exact Q1. }
+  destruct P1' as [P1r P1n].
+  assert (Hnonblank : forall a, In a (r_attrs r) -> is_nonpath_kind (la_kind a) = true -> is_blank (la_value a) = false).
+  { intros a Ha K. destruct (is_blank (la_value a)) eqn:Eb; [|reflexivity]. exfalso.
+    pose proof Ha as Hin. apply in_split in Ha. destruct Ha as [l1 [l2 E]]. destruct (Hcom l1 a l2 E) as (Hne & _).
+    unfold sx_blank_value in Xblank. rewrite existsb_false in Xblank.
+    specialize (Xblank a Hin). rewrite K, Eb in Xblank. simpl in Xblank.
+    rewrite andb_true_r in Xblank. apply negb_false_iff in Xblank. apply is_nil_spec in Xblank. contradiction. }
+  assert (Href : forall a, In a (r_attrs r) -> is_param_kind (la_kind a) = true -> In (la_value a) (fnames r)).
+  { intros a Ha Hk. destruct (is_nonpath_kind (la_kind a)) eqn:Knp.
+    - pose proof (Hnonblank a Ha Knp) as Hnb.
+      pose proof (nonpath_attrs_In r a Ha Knp Hnb) as Hv.
+      destruct (P3 _ Hv) as [E0|Hf]; [|assumption]. exfalso. rewrite E0 in Hnb. discriminate.
+    - assert (K : la_kind a = KPath) by (destruct (la_kind a); simpl in *; congruence).
+      apply P2v. apply in_map. apply attrs_of_In. auto. }
+  pose proof Epar as Tsound. unfold params_diags in Tsound.
+  apply (params_go_sound (r_attrs r) (indexed (r_params r)) [] dp) in Tsound; [|assumption|unfold bodies; simpl; lia].
+  destruct Tsound as [Ttype Tbody]. simpl in Tbody. unfold indexed in Tbody. rewrite pis_index in Tbody.
+  unfold well_linked. rewrite !andb_true_iff. repeat split.
+  - (* a route *) exact Hend.
+  - (* one-to-one *)
+    unfold one_to_one. rewrite Enames.
+    assert (Hb : NoDup (map binding (attrs_of KPath r))).
+    { apply bindings_nodup; auto.
+      intros a b Ha Hb Ra Rb E. unfold sx_alias_shadow in Xshadow. rewrite existsb_false in Xshadow.
+      specialize (Xshadow a Ha). rewrite Ra in Xshadow. simpl in Xshadow. rewrite existsb_false in Xshadow.
+      specialize (Xshadow b Hb). rewrite Rb, E, str_eqb_refl in Xshadow. discriminate. }
+    assert (Hincl : incl (map binding (attrs_of KPath r)) (link_url r)).
+    { intros x Hx. apply in_map_iff in Hx. destruct Hx as [a [<- Ha]].
+      destruct (real_alias a) eqn:Ra.
+      - apply P2u. apply in_flat_map. exists a. split; [assumption|]. apply real_alias_of_spec.
+        split; [assumption | apply binding_real; assumption].
+      - rewrite (binding_not_real _ Ra). unfold sx_bare_path in Xbare. rewrite existsb_false in Xbare.
+        specialize (Xbare a Ha). rewrite Ra in Xbare. simpl in Xbare. apply negb_false_iff in Xbare.
+        apply smem_In in Xbare. rewrite Eurl, <- Eroute. exact Xbare. }
+    rewrite !andb_true_iff. repeat split.
+    + apply nodupb_spec; assumption.
+    + apply nodupb_spec; assumption.
+    + apply subsetb_spec. apply NoDup_length_incl; [assumption | | assumption].
+      rewrite map_length. rewrite <- (map_length path_key). apply NoDup_incl_length; assumption.
+    + apply subsetb_spec; assumption.
+  - (* every non-context parameter referenced exactly once *)
+    apply forallb_forall. intros p Hp. destruct (is_ctx p) eqn:Ectx; [reflexivity|]. simpl.
+    apply Nat.eqb_eq. unfold count_refs, param_attrs. rewrite filter_filter.
+    assert (Hle : (List.length (filter (fun x => is_param_kind (la_kind x) && str_eqb (la_value x) (fp_name p)) (r_attrs r)) <= 1)%nat).
+    { apply filter_le1_intro. intros l1 a l2 E Fa b Hb.
+      apply andb_true_iff in Fa. destruct Fa as [Fk Fv]. apply str_eqb_spec in Fv.
+      destruct (Hcom l1 a l2 E) as (_ & _ & _ & Hu & _). specialize (Hu Fk).
+      destruct (str_eqb (la_value b) (fp_name p)) eqn:Eb; [|apply andb_false_r].
+      apply str_eqb_spec in Eb. exfalso. apply Hu. rewrite Fv, <- Eb. apply in_map; assumption. }
+    assert (Hge : exists a, In a (r_attrs r) /\ is_param_kind (la_kind a) = true /\ la_value a = fp_name p).
+    { assert (Hn : In (fp_name p) (fnames r)) by (apply in_map; assumption).
+      destruct (P4 _ Hn) as [Hs|Hc].
+      - apply sf3_In in Hs. destruct Hs as [[Hs _]|[Hs _]].
+        + rewrite path_pvalues in Hs. apply in_map_iff in Hs. destruct Hs as [a [Ea Ha]].
+          apply attrs_of_In in Ha. destruct Ha as [Ha Hk]. exists a. rewrite Hk. auto.
+        + apply nonpath_attrs_inv in Hs. destruct Hs as [a (Ha & Ea & Hk & _)]. exists a. repeat split; auto.
+          destruct (la_kind a); simpl in *; congruence.
+      - exfalso. destruct (first_param_In (fp_name p) 0 (r_params r) Hn) as [j [p' Efp]].
+        unfold indexed in Hc. rewrite Efp in Hc.
+        apply first_param_some in Efp. destruct Efp as [Hin Ename].
+        apply index_from_In in Hin.
+        assert (p' = p) by (apply (nodup_name_eq (r_params r)); auto; apply (sc_nodup r SC)).
+        subst p'. congruence. }
+    destruct Hge as [a (Ha & Hk & Ev)].
+    assert (Hin : In a (filter (fun x => is_param_kind (la_kind x) && str_eqb (la_value x) (fp_name p)) (r_attrs r))).
+    { apply filter_In. split; [assumption|]. rewrite Hk, Ev, str_eqb_refl. reflexivity. }
+    destruct (filter (fun x => is_param_kind (la_kind x) && str_eqb (la_value x) (fp_name p)) (r_attrs r)) as [|x [|y t]];
+      simpl in *; [destruct Hin | reflexivity | lia].
+  - (* each annotation references a parameter *)
+    apply forallb_forall. intros a Ha. apply param_attrs_In in Ha. destruct Ha as [Ha Hk].
+    pose proof (Href a Ha Hk) as Hn.
+    apply find_param_In in Hn. destruct Hn as [p Ep]. rewrite Ep. reflexivity.
+  - (* at most one body *)
+    apply Nat.leb_le. unfold attrs_of. apply filter_le1_intro. intros l1 a l2 E Fa b Hb.
+    destruct (kind_is KBody b) eqn:Fb; [|reflexivity]. exfalso.
+    apply kind_is_spec in Fa. apply kind_is_spec in Fb.
+    assert (Ha : In a (r_attrs r)) by (rewrite E; apply in_or_app; right; left; reflexivity).
+    assert (Hb' : In b (r_attrs r)) by (rewrite E; apply in_or_app; left; assumption).
+    assert (Ka : is_param_kind (la_kind a) = true) by (rewrite Fa; reflexivity).
+    assert (Kb : is_param_kind (la_kind b) = true) by (rewrite Fb; reflexivity).
+    destruct (Hcom l1 a l2 E) as (_ & _ & _ & Hu & _). specialize (Hu Ka).
+    assert (Hne : la_value b <> la_value a) by (intros Eq; apply Hu; rewrite <- Eq; apply in_map; assumption).
+    pose proof (Href a Ha Ka) as Hna. pose proof (Href b Hb' Kb) as Hnb.
+    apply find_param_In in Hna. destruct Hna as [pa Epa]. apply find_param_In in Hnb. destruct Hnb as [pb Epb].
+    pose proof (sc_noctx r SC a pa (proj2 (param_attrs_In r a) (conj Ha Ka)) Epa) as Ca.
+    pose proof (sc_noctx r SC b pb (proj2 (param_attrs_In r b) (conj Hb' Kb)) Epb) as Cb.
+    apply find_param_some in Epa. destruct Epa as [Hpa Na]. apply find_param_some in Epb. destruct Epb as [Hpb Nb].
+    assert (Pa : pi_of (r_attrs r) pa = [PBody]).
+    { unfold pi_of. rewrite Ca, Na, (Hfirst a Ha Ka), Fa. reflexivity. }
+    assert (Pb : pi_of (r_attrs r) pb = [PBody]).
+    { unfold pi_of. rewrite Cb, Nb, (Hfirst b Hb' Kb), Fb. reflexivity. }
+    assert (Hpne : pa <> pb) by (intros Eq; subst pb; congruence).
+    pose proof (bodies_flat_two (r_attrs r) (r_params r) pa pb Hpa Hpb Hpne Pa Pb). lia.
+  - (* never a body together with form fields *)
+    destruct (attrs_of KBody r) as [|a ta] eqn:Eb; [reflexivity|].
+    destruct (attrs_of KForm r) as [|b tb] eqn:Ef; [reflexivity|]. exfalso.
+    assert (Ha : In a (attrs_of KBody r)) by (rewrite Eb; left; reflexivity).
+    assert (Hb : In b (attrs_of KForm r)) by (rewrite Ef; left; reflexivity).
+    apply attrs_of_In in Ha. destruct Ha as [Ha Ka]. apply attrs_of_In in Hb. destruct Hb as [Hb Kb].
+    assert (Hne : a <> b) by (intros Eq; subst b; congruence).
+    destruct (in_two_split _ a b Ha Hb Hne) as [(l1 & l2 & l3 & E)|(l1 & l2 & l3 & E)].
+    + replace (l1 ++ a :: l2 ++ b :: l3) with ((l1 ++ a :: l2) ++ b :: l3) in E by (rewrite <- app_assoc; reflexivity).
+      destruct (Hcom _ b l3 E) as (_ & _ & H3 & _). apply (H3 Kb).
+      rewrite map_app. apply in_or_app. right. left. assumption.
+    + replace (l1 ++ b :: l2 ++ a :: l3) with ((l1 ++ b :: l2) ++ a :: l3) in E by (rewrite <- app_assoc; reflexivity).
+      destruct (Hcom _ a l3 E) as (_ & H2 & _). apply (H2 Ka).
+      rewrite map_app. apply in_or_app. right. left. assumption.
+  - (* parameter types *)
+    apply forallb_forall. intros a Ha. pose proof Ha as Hpa. apply param_attrs_In in Ha. destruct Ha as [Ha Hk].
+    destruct (akind_eqb (la_kind a) KBody) eqn:Kb; [reflexivity|]. simpl.
+    pose proof (Href a Ha Hk) as Hn. apply find_param_In in Hn. destruct Hn as [p Ep]. rewrite Ep.
+    pose proof (sc_noctx r SC a p Hpa Ep) as Cp. rewrite Cp. simpl.
+    pose proof Ep as Ep'. apply find_param_some in Ep'. destruct Ep' as [Hp Np].
+    destruct (In_index_from 0 _ _ Hp) as [j Hj].
+    assert (Hf : first_by_value (fp_name p) (r_attrs r) = Some a) by (rewrite Np; apply Hfirst; assumption).
+    destruct (Ttype j p a Hj Cp Hf) as [pi [Hpi Htd]].
+    assert (Kne : la_kind a <> KBody).
+    { intros Eq. rewrite Eq in Kb. discriminate. }
+    assert (Hvn : validate_nonbody_param j p pi = []).
+    { unfold type_diag in Htd. destruct pi; try assumption. destruct (la_kind a); simpl in Hpi; congruence. }
+    apply (nonbody_case j (la_kind a) p pi Hpi Kne Hvn).
+    unfold sx_loose_type in Xloose. rewrite existsb_false in Xloose. specialize (Xloose a Hpa).
+    rewrite Kb, Ep in Xloose. simpl in Xloose. exact Xloose.
+  - (* return types *)
+    unfold rets_diags in Eret. destruct (r_rets r) as [|e1 [|e2 [|e3 t]]]; simpl in *.
+    + inversion Eret; subst dr. discriminate.
+    + destruct e1; simpl in Eret; inversion Eret; subst dr; try discriminate; reflexivity.
+    + destruct e2; simpl in Eret; inversion Eret; subst dr; try discriminate; reflexivity.
+    + inversion Eret; subst dr. discriminate.
+  - (* verbs *)
+    apply forallb_forall. intros a Ha. apply attrs_of_In in Ha. destruct Ha as [Ha Ka].
+    apply in_split in Ha. destruct Ha as [l1 [l2 E]]. destruct (Hcom l1 a l2 E) as (_ & _ & _ & _ & H5).
+    apply smem_In. apply H5. assumption.
+Qed.
+
+(* ---------------------------------------------------------------- completeness (partial) *)
+
+Lemma clash_intro : forall l before a,
+  In a l -> is_param_kind (la_kind a) = true -> In (la_value a) before -> clash_go before l = true.
+Proof.
+  induction l as [|x t IH]; intros before a Ha Hk Hv; [destruct Ha|]. simpl.
+  destruct Ha as [->|Ha].
+  - rewrite Hk. apply smem_In in Hv. rewrite Hv. reflexivity.
+  - apply orb_true_iff. right. apply (IH _ a Ha Hk). destruct (is_param_kind (la_kind x)); [assumption | right; assumption].
+Qed.
+
+Lemma clash_split : forall m1 before b rest a,
+  is_param_kind (la_kind b) = false -> In a rest -> is_param_kind (la_kind a) = true ->
+  la_value a = la_value b -> clash_go before (m1 ++ b :: rest) = true.
+Proof.
+  induction m1 as [|x t IH]; intros before b rest a Hb Ha Hk Hv; simpl.
+  - rewrite Hb. simpl. apply (clash_intro rest _ a Ha Hk). left. symmetry; assumption.
+  - apply orb_true_iff. right. eapply IH; eauto.
+Qed.
+
+Lemma first_kind : forall l before v,
+  clash_go before l = false ->
+  (exists a, In a l /\ is_param_kind (la_kind a) = true /\ la_value a = v) ->
+  exists a, first_by_value v l = Some a /\ is_param_kind (la_kind a) = true.
+Proof.
+  induction l as [|x t IH]; intros before v Hc [a (Ha & Hk & Hv)]; [destruct Ha|].
+  simpl in Hc. apply orb_false_iff in Hc. destruct Hc as [Hc1 Hc2].
+  unfold first_by_value. simpl. destruct (str_eqb (la_value x) v) eqn:E.
+  - exists x. split; [reflexivity|]. destruct (is_param_kind (la_kind x)) eqn:Kx; [reflexivity|]. exfalso.
+    apply str_eqb_spec in E. destruct Ha as [->|Ha]; [congruence|].
+    assert (clash_go (la_value x :: before) t = true).
+    { apply (clash_intro t _ a Ha Hk). left. congruence. }
+    congruence.
+  - apply str_eqb_neq in E. destruct Ha as [->|Ha]; [congruence|].
+    apply (IH _ v Hc2). exists a. auto.
+Qed.
+
+Lemma is_blank_nil : is_blank [] = true.
+Proof. reflexivity. Qed.
+
+Lemma supported_nonempty v : In v supported_verbs -> v <> [].
+Proof. unfold supported_verbs. simpl. intros [<-|[<-|[<-|[<-|[<-|[]]]]]]; discriminate. Qed.
+
+Lemma nodup_filter_values (f : lattr -> bool) : forall l,
+  (forall l1 a l2, l = l1 ++ a :: l2 -> f a = true -> ~ In (la_value a) (map la_value l1)) ->
+  NoDup (map la_value (filter f l)).
+Proof.
+  induction l as [|z t IH] using rev_ind; intros H; [constructor|].
+  rewrite filter_app, map_app. apply NoDup_app_iff. repeat split.
+  - apply IH. intros l1 a l2 E Fa. subst t. apply (H l1 a (l2 ++ [z])); [rewrite <- app_assoc; reflexivity | assumption].
+  - simpl. destruct (f z); simpl; repeat constructor. intros [].
+  - intros x Hx1 Hx2. simpl in Hx2. destruct (f z) eqn:Fz; simpl in Hx2; [|destruct Hx2].
+    destruct Hx2 as [<-|[]]. apply (H t z [] eq_refl Fz).
+    apply in_map_iff in Hx1. destruct Hx1 as [b [Eb Hb]]. apply filter_In in Hb. destruct Hb as [Hb _].
+    rewrite <- Eb. apply in_map; assumption.
+Qed.
+
+Lemma real_aliases_sub pa : NoDup (map binding pa) -> NoDup (flat_map real_alias_of pa).
+Proof.
+  induction pa as [|a t IH]; simpl; intros H; [constructor|]. inversion H as [|? ? Hn Hd]; subst.
+  apply NoDup_app_iff. repeat split; auto.
+  - unfold real_alias_of. destruct (la_alias a) as [|[|c y]|]; repeat constructor; simpl; tauto.
+  - intros x Hx1 Hx2. apply real_alias_of_spec in Hx1. destruct Hx1 as [Ra Ea].
+    apply in_flat_map in Hx2. destruct Hx2 as [b [Hb Hx2]]. apply real_alias_of_spec in Hx2. destruct Hx2 as [Rb Eb].
+    apply Hn. apply in_map_iff. exists b. split; [|assumption].
+    pose proof (binding_real a Ra) as Ba. pose proof (binding_real b Rb) as Bb. congruence.
+Qed.
+
+Lemma path_key_binding a : la_alias a <> AStr [] -> path_key a = binding a.
+Proof. unfold path_key, binding. destruct (la_alias a) as [|[|c y]|]; congruence. Qed.
+
+Lemma nonbody_case_conv j k p pi :
+  passed_of k = Some pi -> k <> KBody -> nonbody_type_ok k p = true ->
+  ~ (fp_base p = TPrimAlias /\ fp_shape p = SPtrSlice) ->
+  validate_nonbody_param j p pi = [].
+Proof.
+  destruct p as [n b sh]. unfold validate_nonbody_param, nonbody_type_ok, param_meta. simpl.
+  intros Hp Hk Hv Hn.
+  destruct k; simpl in Hp; inversion Hp; subst pi; try congruence;
+    destruct b, sh; simpl in *; try reflexivity; try discriminate; exfalso; apply Hn; auto.
+Qed.
+
+Lemma pi_of_cases attrs p :
+  pi_of attrs p = [] \/ exists a pi, is_ctx p = false /\ first_by_value (fp_name p) attrs = Some a
+                                     /\ passed_of (la_kind a) = Some pi /\ pi_of attrs p = [pi].
+Proof.
+  unfold pi_of. destruct (is_ctx p) eqn:C; [left; reflexivity|].
+  destruct (first_by_value (fp_name p) attrs) as [a|] eqn:F; [|left; reflexivity].
+  destruct (passed_of (la_kind a)) as [pi|] eqn:Pa; [|left; reflexivity]. right. exists a, pi. repeat split; assumption.
+Qed.
+
+Lemma count_flat_zero (f : passed -> bool) attrs l :
+  (forall x, In x l -> forall pi, In pi (pi_of attrs x) -> f pi = false) ->
+  List.length (filter f (flat_map (pi_of attrs) l)) = 0.
+Proof.
+  intros H. assert (E : filter f (flat_map (pi_of attrs) l) = []).
+  { apply filter_nil_iff. intros pi Hpi. apply in_flat_map in Hpi. destruct Hpi as [x [Hx Hpi]]. eauto. }
+  rewrite E. reflexivity.
+Qed.
+
+Lemma passed_body k : passed_of k = Some PBody -> k = KBody.
+Proof. destruct k; simpl; intros H; inversion H; reflexivity. Qed.
+Lemma passed_form k : passed_of k = Some PForm -> k = KForm.
+Proof. destruct k; simpl; intros H; inversion H; reflexivity. Qed.
+
+Lemma bodies_le1 attrs : forall ps,
+  NoDup (map fp_name ps) ->
+  (forall a b, In a attrs -> In b attrs -> la_kind a = KBody -> la_kind b = KBody -> a = b) ->
+  (bodies (flat_map (pi_of attrs) ps) <= 1)%nat.
+Proof.
+  induction ps as [|x t IH]; intros Hn Hone; simpl; [unfold bodies; simpl; lia|].
+  inversion Hn as [|? ? Hx Hd]; subst. rewrite bodies_app. specialize (IH Hd Hone).
+  destruct (pi_of_cases attrs x) as [E|(a & pi & Cx & Fx & Px & E)]; rewrite E.
+  - unfold bodies at 1. simpl. lia.
+  - destruct pi; try (unfold bodies at 1; simpl; lia).
+    apply passed_body in Px.
+    assert (Z : bodies (flat_map (pi_of attrs) t) = 0).
+    { apply count_flat_zero. intros y Hy pi Hpi.
+      destruct (pi_of_cases attrs y) as [Ey|(b & pi' & Cy & Fy & Py & Ey)]; rewrite Ey in Hpi; [destruct Hpi|].
+      destruct Hpi as [<-|[]]. destruct pi'; try reflexivity. exfalso. apply passed_body in Py.
+      apply first_by_value_some in Fx. apply first_by_value_some in Fy. destruct Fx as [Ia Va], Fy as [Ib Vb].
+      assert (a = b) by (apply Hone; assumption). subst b.
+      apply Hx. rewrite <- Va, Vb. apply in_map; assumption. }
+    rewrite Z. unfold bodies. simpl. lia.
+Qed.
+
+Lemma bodies_pos attrs ps :
+  bodies (flat_map (pi_of attrs) ps) <> 0 -> exists a, In a attrs /\ la_kind a = KBody.
+Proof.
+  intros H. destruct (filter is_pbody (flat_map (pi_of attrs) ps)) as [|pi l] eqn:E; [unfold bodies in H; rewrite E in H; simpl in H; congruence|].
+  assert (Hin : In pi (filter is_pbody (flat_map (pi_of attrs) ps))) by (rewrite E; left; reflexivity).
+  apply filter_In in Hin. destruct Hin as [Hin Hb]. apply in_flat_map in Hin. destruct Hin as [x [_ Hx]].
+  destruct (pi_of_cases attrs x) as [Ex|(a & pi' & _ & Fx & Px & Ex)]; rewrite Ex in Hx; [destruct Hx|].
+  destruct Hx as [<-|[]]. destruct pi'; try discriminate. apply passed_body in Px.
+  apply first_by_value_some in Fx. exists a. tauto.
+Qed.
+
+Lemma forms_pos attrs ps :
+  forms (flat_map (pi_of attrs) ps) <> 0 -> exists a, In a attrs /\ la_kind a = KForm.
+Proof.
+  intros H. destruct (filter is_pform (flat_map (pi_of attrs) ps)) as [|pi l] eqn:E; [unfold forms in H; rewrite E in H; simpl in H; congruence|].
+  assert (Hin : In pi (filter is_pform (flat_map (pi_of attrs) ps))) by (rewrite E; left; reflexivity).
+  apply filter_In in Hin. destruct Hin as [Hin Hb]. apply in_flat_map in Hin. destruct Hin as [x [_ Hx]].
+  destruct (pi_of_cases attrs x) as [Ex|(a & pi' & _ & Fx & Px & Ex)]; rewrite Ex in Hx; [destruct Hx|].
+  destruct Hx as [<-|[]]. destruct pi'; try discriminate. apply passed_form in Px.
+  apply first_by_value_some in Fx. exists a. tauto.
+Qed.
+
+Theorem complete_partial r :
+  in_scope r = true -> compl_excl r = false -> well_linked r = true -> accepted r = true.
+Proof.
+  intros Hscope Hexcl Hwl.
+  pose proof (in_scope_facts r Hscope) as SC.
+  unfold compl_excl in Hexcl. repeat (apply orb_false_iff in Hexcl; destruct Hexcl as [Hexcl ?X]).
+  rename Hexcl into Cprefix. rename X4 into Ctwo. rename X3 into Cclash. rename X2 into Cempty.
+  rename X1 into Cprim. rename X0 into Cptr. rename X into Cforeign.
+  unfold well_linked in Hwl. rewrite !andb_true_iff in Hwl.
+  destruct Hwl as [[[[[[[[W1 W2] W3] W4] W5] W6] W7] W8] W9].
+  rewrite forallb_forall in W3, W4, W7, W9. apply Nat.leb_le in W5.
+  unfold one_to_one in W2. rewrite !andb_true_iff in W2. destruct W2 as [[[W2a W2b] W2c] W2d].
+  apply nodupb_spec in W2a, W2b. apply subsetb_spec in W2c, W2d.
+  (* one @Route *)
+  assert (Hroute : exists ra, attrs_of KRoute r = [ra]).
+  { unfold cx_two_routes in Ctwo. apply Nat.ltb_ge in Ctwo.
+    pose proof W1 as Hend. unfold is_endpoint in Hend. apply andb_true_iff in Hend. destruct Hend as [_ Hend].
+    unfold first_value in Hend. rewrite find_filter in Hend. fold (attrs_of KRoute r) in Hend.
+    destruct (attrs_of KRoute r) as [|ra [|rb t]]; simpl in *; try discriminate; [exists ra; reflexivity | lia]. }
+  destruct Hroute as [ra Hra]. destruct (single_route r ra Hra) as [Eurl Eroute].
+  assert (Enames : template_names (full_template r) = link_url r).
+  { rewrite full_template_names by exact Cprefix. rewrite Eurl, Eroute. reflexivity. }
+  rewrite Enames in W2a, W2c, W2d.
+  (* every annotation of the five kinds names a non-context parameter *)
+  assert (Href : forall a, In a (r_attrs r) -> is_param_kind (la_kind a) = true ->
+            exists p, find_param (la_value a) r = Some p /\ is_ctx p = false /\ In p (r_params r) /\ fp_name p = la_value a).
+  { intros a Ha Hk. assert (Hpa : In a (param_attrs r)) by (apply param_attrs_In; auto).
+    specialize (W4 a Hpa). destruct (find_param (la_value a) r) as [p|] eqn:Ep; [|discriminate].
+    exists p. pose proof (find_param_some _ _ _ Ep) as [H1 H2]. repeat split; auto. apply (sc_noctx r SC a p Hpa Ep). }
+  assert (Hcount : forall a, In a (r_attrs r) -> is_param_kind (la_kind a) = true ->
+            List.length (filter (fun x => is_param_kind (la_kind x) && str_eqb (la_value x) (la_value a)) (r_attrs r)) = 1).
+  { intros a Ha Hk. destruct (Href a Ha Hk) as (p & Ep & Cp & Hp & Np).
+    specialize (W3 p Hp). rewrite Cp in W3. simpl in W3. apply Nat.eqb_eq in W3.
+    unfold count_refs, param_attrs in W3. rewrite filter_filter in W3. rewrite Np in W3. exact W3. }
+  (* CommonValidator: no attribute gets an error *)
+  assert (Hsplit : forall l1 a l2, r_attrs r = l1 ++ a :: l2 -> attr_ok l1 a).
+  { intros l1 a l2 E.
+    assert (Ha : In a (r_attrs r)) by (rewrite E; apply in_or_app; right; left; reflexivity).
+    unfold attr_ok. repeat split.
+    - destruct (la_kind a) eqn:K.
+      + apply supported_nonempty. apply smem_In. apply W9. apply attrs_of_In. auto.
+      + apply (sc_value r SC a Ha). auto.
+      + destruct (Href a Ha) as (p & _ & _ & Hp & Np); [rewrite K; reflexivity|].
+        intros E0. pose proof (sc_names r SC p Hp) as Hb. rewrite Np, E0 in Hb. discriminate.
+      + destruct (Href a Ha) as (p & _ & _ & Hp & Np); [rewrite K; reflexivity|].
+        intros E0. pose proof (sc_names r SC p Hp) as Hb. rewrite Np, E0 in Hb. discriminate.
+      + destruct (Href a Ha) as (p & _ & _ & Hp & Np); [rewrite K; reflexivity|].
+        intros E0. pose proof (sc_names r SC p Hp) as Hb. rewrite Np, E0 in Hb. discriminate.
+      + destruct (Href a Ha) as (p & _ & _ & Hp & Np); [rewrite K; reflexivity|].
+        intros E0. pose proof (sc_names r SC p Hp) as Hb. rewrite Np, E0 in Hb. discriminate.
+      + destruct (Href a Ha) as (p & _ & _ & Hp & Np); [rewrite K; reflexivity|].
+        intros E0. pose proof (sc_names r SC p Hp) as Hb. rewrite Np, E0 in Hb. discriminate.
+      + apply (sc_value r SC a Ha). auto.
+      + exfalso. apply (sc_known r SC a Ha K).
+    - intros K Hin. apply in_map_iff in Hin. destruct Hin as [b [Kb Hb]].
+      assert (Hb' : In b (r_attrs r)) by (rewrite E; apply in_or_app; left; assumption).
+      assert (B1 : In a (attrs_of KBody r)) by (apply attrs_of_In; auto).
+      assert (B2 : In b (attrs_of KForm r)) by (apply attrs_of_In; auto).
+      destruct (attrs_of KBody r); [destruct B1|]. destruct (attrs_of KForm r); [destruct B2|]. discriminate.
+    - intros K Hin. apply in_map_iff in Hin. destruct Hin as [b [Kb Hb]].
+      assert (Hb' : In b (r_attrs r)) by (rewrite E; apply in_or_app; left; assumption).
+      assert (B1 : In b (attrs_of KBody r)) by (apply attrs_of_In; auto).
+      assert (B2 : In a (attrs_of KForm r)) by (apply attrs_of_In; auto).
+      destruct (attrs_of KBody r); [destruct B1|]. destruct (attrs_of KForm r); [destruct B2|]. discriminate.
+    - intros Hk Hin. apply in_map_iff in Hin. destruct Hin as [b [Vb Hb]].
+      apply in_split in Hb. destruct Hb as [m1 [m2 Em]]. subst l1.
+      destruct (is_param_kind (la_kind b)) eqn:Kb.
+      + pose proof (Hcount a Ha Hk) as Hc. rewrite E in Hc.
+        rewrite <- app_assoc in Hc. simpl in Hc. rewrite filter_app in Hc. simpl in Hc.
+        rewrite Kb, Vb, str_eqb_refl in Hc. simpl in Hc. rewrite filter_app in Hc. simpl in Hc.
+        rewrite Hk, str_eqb_refl in Hc. simpl in Hc. rewrite !app_length in Hc. simpl in Hc.
+        rewrite app_length in Hc. simpl in Hc. lia.
+      + unfold cx_value_clash in Cclash. rewrite E in Cclash. rewrite <- app_assoc in Cclash. simpl in Cclash.
+        rewrite (clash_split m1 [] b (m2 ++ a :: l2) a) in Cclash; auto; [discriminate|].
+        apply in_or_app. right. left. reflexivity.
+    - intros K. apply smem_In. apply W9. apply attrs_of_In. auto. }
+  (* FindFirstByValue finds the annotation of each non-context parameter *)
+  assert (Hfind : forall p, In p (r_params r) -> is_ctx p = false ->
+            exists a, first_by_value (fp_name p) (r_attrs r) = Some a /\ is_param_kind (la_kind a) = true
+                      /\ In a (r_attrs r) /\ la_value a = fp_name p).
+  { intros p Hp Cp. specialize (W3 p Hp). rewrite Cp in W3. simpl in W3. apply Nat.eqb_eq in W3.
+    assert (Hex : exists a, In a (r_attrs r) /\ is_param_kind (la_kind a) = true /\ la_value a = fp_name p).
+    { unfold count_refs in W3. destruct (filter (fun a => str_eqb (la_value a) (fp_name p)) (param_attrs r)) as [|a t] eqn:Ef;
+        [discriminate|].
+      assert (Hin : In a (filter (fun a => str_eqb (la_value a) (fp_name p)) (param_attrs r))) by (rewrite Ef; left; reflexivity).
+      apply filter_In in Hin. destruct Hin as [Hin Hv]. apply param_attrs_In in Hin. apply str_eqb_spec in Hv.
+      exists a. tauto. }
+    destruct (first_kind (r_attrs r) [] (fp_name p) Cclash Hex) as [a [Fa Ka]].
+    exists a. pose proof (first_by_value_some _ _ _ Fa) as [H1 H2]. auto. }
+  apply accepted_iff. split; [exact W1|].
+  exists [], []. repeat split.
+  - (* validateParams *)
+    unfold params_diags. apply params_go_complete.
+    + intros j p Hjp Cp. apply index_from_In in Hjp.
+      destruct (Hfind p Hjp Cp) as (a & Fa & Ka & Ha & Va). exists a.
+      assert (Hfp : find_param (la_value a) r = Some p).
+      { rewrite Va. apply find_param_nodup; [apply (sc_nodup r SC) | assumption]. }
+      assert (Hpa : In a (param_attrs r)) by (apply param_attrs_In; auto).
+      destruct (la_kind a) eqn:K; simpl in Ka; try discriminate.
+      * exists PPath. repeat split; auto. unfold type_diag.
+        apply (nonbody_case_conv j KPath p PPath eq_refl); [discriminate| |].
+        -- specialize (W7 a Hpa). rewrite K, Hfp, Cp in W7. simpl in W7. exact W7.
+        -- intros [Hb Hs]. specialize (W7 a Hpa). rewrite K, Hfp, Cp in W7. simpl in W7.
+           unfold nonbody_type_ok in W7. rewrite Hs in W7. simpl in W7. rewrite andb_false_r in W7. discriminate.
+      * exists PQuery. repeat split; auto. unfold type_diag.
+        apply (nonbody_case_conv j KQuery p PQuery eq_refl); [discriminate| |].
+        -- specialize (W7 a Hpa). rewrite K, Hfp, Cp in W7. simpl in W7. exact W7.
+        -- intros [Hb Hs]. unfold cx_alias_ptr_slice in Cptr. rewrite existsb_false in Cptr.
+           assert (Hq : In a (attrs_of KQuery r)) by (apply attrs_of_In; auto).
+           specialize (Cptr a Hq). rewrite Hfp, Hb, Hs in Cptr. discriminate.
+      * exists PHeader. repeat split; auto. unfold type_diag.
+        apply (nonbody_case_conv j KHeader p PHeader eq_refl); [discriminate| |].
+        -- specialize (W7 a Hpa). rewrite K, Hfp, Cp in W7. simpl in W7. exact W7.
+        -- intros [Hb Hs]. specialize (W7 a Hpa). rewrite K, Hfp, Cp in W7. simpl in W7.
+           unfold nonbody_type_ok in W7. rewrite Hs in W7. simpl in W7. rewrite andb_false_r in W7. discriminate.
+      * exists PForm. repeat split; auto. unfold type_diag.
+        apply (nonbody_case_conv j KForm p PForm eq_refl); [discriminate| |].
+        -- specialize (W7 a Hpa). rewrite K, Hfp, Cp in W7. simpl in W7. exact W7.
+        -- intros [Hb Hs]. specialize (W7 a Hpa). rewrite K, Hfp, Cp in W7. simpl in W7.
+           unfold nonbody_type_ok in W7. rewrite Hs in W7. simpl in W7. rewrite andb_false_r in W7. discriminate.
+      * exists PBody. repeat split; auto. unfold type_diag, validate_body_param.
+        unfold cx_primitive_body in Cprim. rewrite existsb_false in Cprim.
+        assert (Hq : In a (attrs_of KBody r)) by (apply attrs_of_In; auto).
+        specialize (Cprim a Hq). rewrite Hfp in Cprim. simpl in Cprim. rewrite Cprim. reflexivity.
+    + simpl. unfold indexed. rewrite pis_index.
+      assert (Hone : forall a b, In a (r_attrs r) -> In b (r_attrs r) -> la_kind a = KBody -> la_kind b = KBody -> a = b).
+      { intros a b Ha Hb Ka Kb. apply (filter_le1 (kind_is KBody) (r_attrs r)); auto; apply kind_is_spec; assumption. }
+      split.
+      * apply bodies_le1; [apply (sc_nodup r SC) | exact Hone].
+      * destruct (Nat.eq_dec (bodies (flat_map (pi_of (r_attrs r)) (r_params r))) 0) as [Z|NZ]; [left; exact Z|].
+        right. destruct (Nat.eq_dec (forms (flat_map (pi_of (r_attrs r)) (r_params r))) 0) as [Zf|NZf]; [exact Zf|].
+        exfalso. apply bodies_pos in NZ. apply forms_pos in NZf.
+        destruct NZ as [a [Ha Ka]]. destruct NZf as [b [Hb Kb]].
+        assert (B1 : In a (attrs_of KBody r)) by (apply attrs_of_In; auto).
+        assert (B2 : In b (attrs_of KForm r)) by (apply attrs_of_In; auto).
+        destruct (attrs_of KBody r); [destruct B1|]. destruct (attrs_of KForm r); [destruct B2|]. discriminate.
+  - (* return types *)
+    unfold rets_diags. unfold cx_foreign_error in Cforeign.
+    destruct (r_rets r) as [|e1 [|e2 [|e3 t]]]; try discriminate.
+    + destruct e1; simpl in *; try discriminate; reflexivity.
+    + destruct e2, e1; simpl in *; try discriminate; reflexivity.
+  - (* CommonValidator *)
+    apply (common_diags_ok r (sc_known r SC)). apply attrs_ok_split. simpl. exact Hsplit.
+  - (* link validator *)
+    apply link_diags_ok.
+    assert (Q2 : fst (pass2_go (fnames r) (link_url r) [] [] [] (path_attrs r)) = []).
+    { apply pass2_nil; [intros x []|]. rewrite path_pvalues, real_aliases_map, path_attrs_snd. repeat split.
+      - intros v Hv. apply in_map_iff in Hv. destruct Hv as [a [<- Ha]]. apply attrs_of_In in Ha. destruct Ha as [Ha Ka].
+        destruct (Href a Ha) as (p & Ep & _); [rewrite Ka; reflexivity|]. apply find_param_In. eauto.
+      - unfold attrs_of. apply nodup_filter_values. intros l1 a l2 E Fa. apply kind_is_spec in Fa.
+        destruct (Hsplit l1 a l2 E) as (_ & _ & _ & H4 & _). apply H4. rewrite Fa. reflexivity.
+      - intros v _ [].
+      - intros [i a] Hia. simpl. apply (sc_alias r SC a).
+        unfold path_attrs in Hia. apply filter_In in Hia. destruct Hia as [Hia _]. eapply index_from_In, Hia.
+      - apply real_aliases_sub. assumption.
+      - intros [].
+      - apply W2d. apply in_flat_map in H. destruct H as [a [Ha Hx]]. apply real_alias_of_spec in Hx. destruct Hx as [Ra Ea].
+        apply in_map_iff. exists a. split; [|assumption]. pose proof (binding_real a Ra). congruence. }
+    repeat split.
+    + unfold pass1.
+      assert (Ead : flat_map alias_diag (path_attrs r) = []).
+      { destruct (flat_map alias_diag (path_attrs r)) as [|d l] eqn:E; [reflexivity|]. exfalso.
+        assert (Hd : In d (d :: l)) by (left; reflexivity). rewrite <- E in Hd. apply in_flat_map in Hd.
+        destruct Hd as [[i a] [Hia Hd]]. unfold alias_diag in Hd. simpl in Hd.
+        destruct (la_alias a) eqn:Ea; simpl in Hd; try contradiction.
+        apply (sc_alias r SC a); [|assumption].
+        unfold path_attrs in Hia. apply filter_In in Hia. destruct Hia as [Hia _]. eapply index_from_In, Hia. }
+      rewrite Ead. apply url_go_nil. repeat split; auto.
+      intros u Hu. specialize (W2c u Hu). apply in_map_iff in W2c. destruct W2c as [a [Eb Ha]].
+      rewrite <- path_attrs_snd in Ha. apply in_map_iff in Ha. destruct Ha as [[i a'] [Ea Hia]]. simpl in Ea. subst a'.
+      apply in_map_iff. exists (i, a). split; [|assumption]. simpl. rewrite <- Eb. apply path_key_binding.
+      intros E0. unfold cx_empty_alias in Cempty. rewrite existsb_false in Cempty.
+      assert (Hpa : In a (attrs_of KPath r)).
+      { rewrite <- path_attrs_snd. apply in_map_iff. exists (i, a). auto. }
+      specialize (Cempty a Hpa). rewrite E0 in Cempty. discriminate.
+    + exact Q2.
+    + apply pass3_nil. intros v Hv. right. apply nonpath_attrs_inv in Hv. destruct Hv as (a & Ha & Va & Ka & _).
+      destruct (Href a Ha) as (p & Ep & _); [destruct (la_kind a); simpl in *; congruence|].
+      apply find_param_In. rewrite <- Va. eauto.
+    + apply pass4_nil. intros name Hn.
+      destruct (first_param_In name 0 (r_params r) Hn) as [j [p Efp]]. unfold indexed. rewrite Efp.
+      destruct (is_ctx p) eqn:Cp; [right; reflexivity|]. left.
+      apply first_param_some in Efp. destruct Efp as [Hjp Np]. apply index_from_In in Hjp.
+      destruct (Hfind p Hjp Cp) as (a & _ & Ka & Ha & Va).
+      apply sf3_In. destruct (is_nonpath_kind (la_kind a)) eqn:Knp.
+      * right. assert (Hnb : is_blank (la_value a) = false) by (rewrite Va; apply (sc_names r SC p Hjp)).
+        repeat split.
+        -- rewrite <- Np, <- Va. apply nonpath_attrs_In; assumption.
+        -- intros E0. rewrite <- Np, <- Va in E0. rewrite E0 in Hnb. discriminate.
+        -- assumption.
+      * left. split; [|assumption]. rewrite path_pvalues. rewrite <- Np, <- Va. apply in_map. apply attrs_of_In.
+        split; [assumption|]. destruct (la_kind a); simpl in *; congruence.
+  - (* GenerateIntermediate *)
+    unfold reduce_ok. apply andb_true_iff. split.
+    + pose proof W1 as Hend. unfold is_endpoint in Hend. apply andb_true_iff in Hend. destruct Hend as [Hm _].
+      apply existsb_exists in Hm. destruct Hm as [a [Ha Ka]].
+      unfold first_value. destruct (find (kind_is KMethod) (r_attrs r)) as [m|] eqn:Ef.
+      * apply find_some in Ef. destruct Ef as [Hm Km]. apply kind_is_spec in Km. simpl.
+        assert (Hs : In (la_value m) supported_verbs) by (apply smem_In, W9, attrs_of_In; auto).
+        apply supported_nonempty in Hs. destruct (la_value m); [congruence | reflexivity].
+      * exfalso. pose proof (find_none _ _ Ef a Ha). congruence.
+    + apply forallb_forall. intros p Hp. destruct (is_ctx p) eqn:Cp; [reflexivity|]. simpl.
+      destruct (Hfind p Hp Cp) as (a & Fa & Ka & Ha & _). rewrite Fa.
+      pose proof (sc_alias r SC a Ha) as Hal. destruct (la_alias a); try congruence;
+        destruct (la_kind a); simpl in *; try discriminate; reflexivity.
+Qed.
+
+(* ---------------------------------------------------------------- the oracle on the model, the command *)
+
+(* On the model's own verdict the oracle never reports an unexplained failure: a route that is
+   accepted without being well linked, or well linked without being accepted, lies in one of
+   the recorded classes (or outside the scope of the property text). *)
+Theorem oracle_on_model r : prop_C10 r (accepted r) = true.
+Proof.
+  unfold prop_C10, prop_C10_route.
+  destruct (in_scope r) eqn:Hs; simpl; [|reflexivity].
+  destruct (accepted r) eqn:Ha, (well_linked r) eqn:Hw; simpl; try reflexivity.
+  - destruct (sound_excl r) eqn:Hx; [reflexivity|].
+    rewrite (sound_partial r Hs Hx Ha) in Hw. discriminate.
+  - destruct (compl_excl r) eqn:Hx; [reflexivity|].
+    rewrite (complete_partial r Hs Hx Hw) in Ha. discriminate.
+Qed.
+
+Lemma has_error_blocks r : has_error_diag r = true -> blocks r = true.
+Proof.
+  unfold has_error_diag, blocks. destruct (validate r); try discriminate. intros ->. reflexivity.
+Qed.
+
+Theorem no_output gen p before :
+  existsb has_error_diag p = true -> run_cmd gen p before = (ExitFail, before).
+Proof.
+  intros H. unfold run_cmd.
+  assert (E : existsb blocks p = true).
+  { apply existsb_exists in H. destruct H as [r [Hr He]]. apply existsb_exists. exists r. split; [assumption|].
+    apply has_error_blocks; assumption. }
+  rewrite E. reflexivity.
+Qed.
+
+(* an accepted route has no error-severity diagnostic *)
+Lemma accepted_no_error r : accepted r = true -> has_error_diag r = false.
+Proof.
+  unfold accepted, has_error_diag. destruct (validate r); try discriminate.
+  intros H. apply andb_true_iff in H. destruct H as [H _]. rewrite H. reflexivity.
+Qed.
+
+(* a command that succeeds wrote both files, and only accepted routes reached the generators *)
+Theorem output_only_accepted gen p before ro sp :
+  run_cmd gen p before = (ExitOk, {| f_routes := Some ro; f_spec := Some sp |}) ->
+  forall r, In r p -> blocks r = false.
+Proof.
+  unfold run_cmd. destruct (existsb blocks p) eqn:E; [discriminate|]. intros _ r Hr.
+  rewrite existsb_false in E. apply E; assumption.
+Qed.
+
+(* ---------------------------------------------------------------- witnesses *)
+
+Lemma demo_ok_facts :
+  in_scope demo_ok = true /\ sound_excl demo_ok = false /\ compl_excl demo_ok = false
+  /\ well_linked demo_ok = true /\ accepted demo_ok = true /\ validate demo_ok = VDiags [].
+Proof. vm_compute. repeat split. Qed.
+
+Definition refutes_sound (r : route) : Prop :=
+  in_scope r = true /\ accepted r = true /\ well_linked r = false.
+Definition refutes_complete (r : route) : Prop :=
+  in_scope r = true /\ well_linked r = true /\ accepted r = false.
+
+Lemma sound_witnesses :
+  (refutes_sound demo_prefix /\ sx_prefix demo_prefix = true)
+  /\ (refutes_sound demo_bare_path /\ sx_bare_path demo_bare_path = true)
+  /\ (refutes_sound demo_two_routes /\ sx_two_routes demo_two_routes = true)
+  /\ (refutes_sound demo_alias_shadow /\ sx_alias_shadow demo_alias_shadow = true)
+  /\ (refutes_sound demo_loose_type /\ sx_loose_type demo_loose_type = true)
+  /\ (refutes_sound demo_blank /\ sx_blank_value demo_blank = true).
+Proof. unfold refutes_sound. vm_compute. repeat split. Qed.
+
+Lemma complete_witnesses :
+  (refutes_complete demo_value_clash /\ cx_value_clash demo_value_clash = true)
+  /\ (refutes_complete demo_empty_alias /\ cx_empty_alias demo_empty_alias = true)
+  /\ (refutes_complete demo_primitive_body /\ cx_primitive_body demo_primitive_body = true)
+  /\ (refutes_complete demo_alias_ptr_slice /\ cx_alias_ptr_slice demo_alias_ptr_slice = true)
+  /\ (refutes_complete demo_foreign_error /\ cx_foreign_error demo_foreign_error = true).
+Proof. unfold refutes_complete. vm_compute. repeat split. Qed.
+
+Lemma sound_refuted : exists r, in_scope r = true /\ accepted r = true /\ well_linked r = false.
+Proof. exists demo_prefix. apply sound_witnesses. Qed.
+
+Lemma complete_refuted : exists r, in_scope r = true /\ well_linked r = true /\ accepted r = false.
+Proof. exists demo_value_clash. apply complete_witnesses. Qed.
+
+(* the command on a project with one rejected route, and on a clean one *)
+Lemma demo_cmd :
+  forall gen before,
+    run_cmd gen [demo_ok; demo_empty_alias] before = (ExitFail, before)
+    /\ run_cmd gen [demo_ok] before = (ExitOk, {| f_routes := Some (fst (gen [demo_ok])); f_spec := Some (snd (gen [demo_ok])) |}).
+Proof.
+  intros gen before. split.
+  - apply no_output. vm_compute. reflexivity.
+  - unfold run_cmd. replace (existsb blocks [demo_ok]) with false by (vm_compute; reflexivity).
+    replace (filter accepted [demo_ok]) with [demo_ok] by (vm_compute; reflexivity).
+    destruct (gen [demo_ok]); reflexivity.
+Qed.
+
+Lemma rule_table_value :
+  rule_table = [[0; 1; 0; 0; 0]; [1; 1; 0; 0; 0]; [2; 1; 1; 1; 2]; [3; 1; 1; 1; 2]; [4; 1; 1; 1; 2];
+                [5; 1; 1; 1; 2; 6]; [6; 1; 0; 1; 1; 5]; [7; 1; 1; 0; 1]].
+Proof. reflexivity. Qed.
